@@ -24,6 +24,14 @@ def walk(focus, q, t, steps=80, **kw):
 
 PLANS = {}
 
+def terminal_sim(q, t):
+    """random behaviours of the whole system specification (spec/Terminal.tla), system-level invariants in every state"""
+    return {"module": "MCTerminal", "model": "terminal", "kind": "screen", "emit": False, "workers": 4,
+            "constants": {"Cols": 3, "Lines": 2, "MaxCols": 4, "MaxLines": 3, "ByteAlphabet": "<- MCBytes", "CharAlphabet": "<- MCChars",
+                          "ApiEvents": "<- MCApi", "Wm": "<- MCWm"},
+            "invariants": ["ScreenOK", "OriginConfined", "RecOK", "PendOK", "ResetWordOK", "TypeOK"],
+            "simulate": {"num": {"quick": q, "thorough": t}, "depth": 80}, "ports": ports({}, {})}
+
 def mcrec(family, maxlen, utf8, p, **kw):
     d = {"module": "MCRec", "model": "rec-%s-%s" % (family, "u" if utf8 else "e"), "kind": "rec", "view": "View",
          "constants": {"MaxLen": maxlen, "Utf8Mode": "TRUE" if utf8 else "FALSE", "Family": '"%s"' % family},
@@ -167,6 +175,7 @@ PLANS["C09"] = {
     "mc": [{"module": "MCReach", "model": "reach", "kind": "screen", "view": "View", "constraint": "StackBound",
             "constants": {"MaxC": {"quick": 2, "thorough": 3}, "MaxL": {"quick": 2, "thorough": 2}, "Depth": 30},
             "invariants": ["WellFormedInv", "OriginConfined", "Emit"], "ports": ports({"api": 2}, {"api": 2, "chars": 9}), "workers": 8},
+           terminal_sim(8, 300),
            mc("C05", geoms("GTiny", "GQuick"), ports({"api": 2, "chars": 5}, {"api": 1, "chars": 2})),
            mc("C16", geoms("GRowsQuick", "GRows"), ports({"api": 1}, {"api": 1})),
            mc("C14", geoms("GSmall", "GSmall"), ports({"api": 1}, ALLP)),
@@ -181,6 +190,7 @@ PLANS["C09"] = {
 PLANS["C01"] = {
     "props": ["C01"], "ops": [],
     "mc": [mcseq("C13seq", {"quick": 3, "thorough": 4}, ports({"api": 3}, {"api": 1}), disp=True), mcseq("C16seq", {"quick": 3, "thorough": 3}, ports({"api": 5}, {"api": 1}), disp=True), mcseq("C14seq", {"quick": 3, "thorough": 3}, ports({"api": 3}, {"api": 1})),
+           terminal_sim(8, 300),
            mc("C05", geoms("GTiny", "GQuick"), ports({"api": 3, "chars": 3}, {"api": 1, "chars": 1})),
            mc("C04", geoms("GTiny", "GQuick"), ports({"api": 5, "chars": 11}, {"api": 1, "chars": 2}), disp=True),
            mc("C06", geoms("GRowsQuick", "GRows"), ports({"api": 7, "chars": 11}, {"api": 1, "chars": 2}), disp=True),
